@@ -28,6 +28,7 @@ structure ClaimFacts (s s1 : State) (m : Msg) : Prop where
   others : ∀ x dx, x ≠ m.source → devAt s x = some dx → dx.name ≠ claimName m → devAt s1 x = some dx
   change : (s1 = s ∧ ∃ d, devAt s m.source = some d ∧ d.name = claimName m ∧ claimName m ≠ 0) ∨
            (s1.listUpdated = true ∧ ∃ d, devAt s1 m.source = some d ∧ d.prodLoaded = false)
+  reclaim : ∀ d, devAt s m.source = some d → d.name = claimName m → d.name ≠ 0 → s1 = s
 
 inductive StepDesc (e : Env) (s s' : State) (m : Msg) : Prop
   | ignored : m.source ≥ MaxBusDevices → s' = s → StepDesc e s s' m
@@ -89,7 +90,10 @@ theorem handleMsg_spec (e : Env) {s : State} (hi : Inv s) (m : Msg) :
       obtain ⟨s1, h1, hi1, f1, f2, f3⟩ := handleClaim_spec e hi m hc hsrc
       simp only [h1]
       obtain ⟨s', h2, hi2, hcore, hl⟩ := postStep_spec e hi1 m.source
-      exact ⟨s', h2, hi2, .claim s1 hsrc hc ⟨f1, f2, f3⟩ ⟨hcore, hl⟩⟩
+      refine ⟨s', h2, hi2, .claim s1 hsrc hc ⟨f1, f2, f3, ?_⟩ ⟨hcore, hl⟩⟩
+      intro d hd hn h0
+      have := handleClaim_reclaim e hi m hc hsrc hd hn h0
+      rw [this] at h1; cases h1; rfl
     · obtain ⟨r, hr, hi0, hpre, hret, hcont⟩ := preStep_spec e hi m hsrc hc
       simp only [hr]
       by_cases hr2 : r.2 = true
